@@ -383,7 +383,7 @@ fn run_any<M: RawMutex>(cfg: &Cfg, ops: &[Op], run: &mut Run, mk_deadline: &MkDe
                     // the wake log gains exactly the due registered slots, each through its
                     // latest waker, in non-decreasing deadline order
                     let log = tls::op_log();
-                    let expect: Vec<u8> = due.iter().map(|&j| (slots[j].wid * 2 + slots[j].last_w)).collect();
+                    let expect: Vec<u8> = due.iter().map(|&j| slots[j].wid * 2 + slots[j].last_w).collect();
                     let mut sorted_log = log.clone();
                     sorted_log.sort_unstable();
                     let mut sorted_expect = expect.clone();
@@ -476,13 +476,17 @@ fn monitors<M: RawMutex>(svc: &GenericTimerService<M>, slots: &[Slot<TFut<'_>>],
     let got = svc.next_expiration();
     if got != model_min {
         run.violate("C15", "next_expiration", format!("next_expiration() == {:?} but the smallest registered deadline is {:?}", got, model_min));
-        return;
+        if run.failed() {
+            return;
+        }
     }
     // an expired future has been woken through its latest waker
     for (i, s) in slots.iter().enumerate() {
         if s.pending() && s.flag && !s.woken() {
             run.violate("C15", "expired-not-woken", format!("slot {} expired and holds no wake-up through its latest waker", i));
-            return;
+            if run.failed() {
+                return;
+            }
         }
     }
     for (i, s) in slots.iter().enumerate() {
@@ -493,7 +497,9 @@ fn monitors<M: RawMutex>(svc: &GenericTimerService<M>, slots: &[Slot<TFut<'_>>],
             }
             if t != s.done {
                 run.violate("C17", "is_terminated-mismatch", format!("slot {}: is_terminated() == {} but completed == {}", i, t, s.done));
-                return;
+                if run.failed() {
+                    return;
+                }
             }
         }
     }
